@@ -291,6 +291,7 @@ func C08() *runner.Property {
 		Rule: "decoder monitor: each generated byte string (random; gzip-wrapped random; valid blobs truncated and bit-flipped at protobuf and gzip level; structurally valid message trees with 1-3 hostile length/tag fields at any nesting level; " +
 			"tiny DBI/KV messages around every hostile length; corrupt gzip containers and large expansions) is written to disk, then fed to snapshot.LoadData and every DBI is iterated to the end. Outcome error/ok = held; panic, process death, " +
 			"more Next() calls than decompressed bytes (non-termination, logical bound), watchdog hang, or allocation out of proportion = violated. Receiver monitor: hostile blobs placed as newest/middle/only blob of instances in a bucket read by a real Receiver. " +
+			"Sync monitor: a real Sync loop with an instance whose newest/only blob is corrupt inside its entries (accepted by LoadData, failing lazily during the merge): Sync must keep running, merge the other instances and the older decodable snapshot within 300 loop iterations, and leave nothing of the corrupt blob in the LMDB. " +
 			"Non-trivial = the input passed gzip and reached the hand-written protobuf parser; distinct by input hash.",
 		Assumptions: []string{
 			"memory bound asserted: bytes allocated during decoding <= 64 x (compressed + decompressed size) + 32 MiB (gzip expansion itself is proportional to the decompressed size, not to the blob)",
@@ -321,11 +322,15 @@ func C08() *runner.Property {
 				}
 			}
 			cs = append(cs, c08ReceiverCases(tier, r)...)
+			cs = append(cs, c08SyncCases(tier, r)...)
 			return cs
 		},
 		Run: func(c runner.Case, env *runner.Env) runner.Result {
 			if c.Family == "receiver" {
 				return runC08Receiver(c, env)
+			}
+			if c.Family == "sync" {
+				return runC08Sync(c, env)
 			}
 			return runC08(c, env)
 		},
